@@ -5,8 +5,10 @@ document has been computed — branch by branch, in Go's order:
   1. the loop over `proof.VerifiableTx.Tx.Entries` (an entry with the document's key must carry
      `sha256(EncodedDocument)`; the key must occur exactly once),
   2. decoding of `EncodedDocument` and `proto.Equal(doc, proofDoc)` — NOT modelled: the possible outcomes are an
-     input (`DocCheck`; protobuf payloads are outside the Lean fragment); `outOfRange` = the unchecked slice
-     expressions `proof.EncodedDocument[voff:]` panic on an encoded document that is too short (finding),
+     input (`DocCheck`; protobuf payloads are outside the Lean fragment); `outOfRange` = the encoded document is
+     shorter than one of the two offsets `voff` at which it is sliced (`proof.EncodedDocument[voff:]`): both
+     slice expressions are guarded by `len(proof.EncodedDocument) < voff → ErrInvalidProof` (they used to panic;
+     finding `C19:proof:panic:encoded-row-cut+hvalue+eh`, repaired),
   3. `EntrySpecDigestFor(Tx.Header.Version)`, the digests of all entries (`IsValueTruncated = true`),
      `htree.BuildWith`, root = `Tx.Header.EH`,
   4. `targetID < sourceID`,
@@ -84,7 +86,7 @@ def verifyDocument [DecidableEq D] (hs : Hs D) (sigOk : Client.State D → Bool)
   | .ok n =>
     if n ≠ 1 then some (.error .invalidProof)
     else match dc with
-    | .outOfRange => none
+    | .outOfRange => some (.error .invalidProof)
     | .undecodable => some (.error .decode)
     | .differs => some (.error .invalidProof)
     | .same =>
